@@ -100,7 +100,7 @@ def check(ctx):
     ssn = R.search_step
     for t, v, s, k in iter_stores(ssn.node):
         if isinstance(t, ast.Name) and isinstance(v, ast.Call):
-            tg = [x for x in prog.resolve_call(ssn, v) if isinstance(x, FunctionInfo) and x.cls is R.bads]
+            tg = [x for x in prog.resolve_call(ssn, v) if isinstance(x, FunctionInfo) and (x.cls is R.bads or x.cls is None)]  # a method or a module-level helper
             if not tg:
                 continue
             used_vs_zero = any(isinstance(n, ast.Compare) and len(n.ops) == 1 and {canon(n.left), canon(n.comparators[0])} == {t.id, "0"} for n in ast.walk(ssn.node))
@@ -111,10 +111,24 @@ def check(ctx):
     else:
         ps = [p for p in imp.params if p != "self"]
         rets = [n for n in ast.walk(imp.node) if isinstance(n, ast.Return)]
-        zname = rets[-1].value.id if rets and isinstance(rets[-1].value, ast.Name) else None
+        def _unflat(e_):
+            while isinstance(e_, ast.Call) and isinstance(e_.func, ast.Attribute) and e_.func.attr in ("flatten", "ravel") and not e_.args:
+                e_ = e_.func.value
+            return e_
+
+        # every returned value: a local (all its defining expressions) or an expression returned directly (early return)
+        zdefs = []
+        for r_ in rets:
+            rv = _unflat(r_.value) if r_.value is not None else None
+            if isinstance(rv, ast.Name):
+                for t, v, s, k in iter_stores(imp.node):
+                    if isinstance(t, ast.Name) and t.id == rv.id and not (isinstance(_unflat(v), ast.Name) and _unflat(v).id == rv.id) and not any(s is s0 for _n, _v, s0 in zdefs):
+                        zdefs.append((rv.id, _unflat(v), s))
+            elif rv is not None:
+                zdefs.append(("the returned value", rv, r_))
         n_def = 0
-        for t, v, s, k in iter_stores(imp.node):
-            if isinstance(t, ast.Name) and t.id == zname and not (isinstance(v, ast.Call) and isinstance(v.func, ast.Attribute) and v.func.attr == "flatten"):
+        for zname, v, s in zdefs:
+            if True:
                 # expand one level of locals (mu)
                 e = v
                 lt, lc = linear(e)
@@ -242,7 +256,10 @@ def check(ctx):
             for n in list(ast.walk(e)):
                 if isinstance(n, ast.Name) and isinstance(n.ctx, ast.Load) and n.id not in mesh.params:
                     defs = reaching_assignments(prog, mesh, n.id, at)
-                    if len(defs) == 1 and isinstance(defs[0], (ast.Attribute, ast.Name)):
+                    d0 = defs[0] if len(defs) == 1 else None
+                    while isinstance(d0, ast.Call) and isinstance(d0.func, ast.Attribute) and d0.func.attr in ("copy", "item") and not d0.args:
+                        d0 = d0.func.value  # a row / value of the log parked in a local (with its copy)
+                    if len(defs) == 1 and (isinstance(defs[0], (ast.Attribute, ast.Name)) or isinstance(d0, ast.Subscript)):
                         d = defs[0]
                         # staleness: a log array bound to a local before evaluations that may re-bind it (cache growth)
                         if canon(d).startswith("LOG.") or (isinstance(d, ast.Attribute) and d.attr in ("X", "Y", "S", "X_orig", "Y_orig")):
@@ -273,11 +290,16 @@ def check(ctx):
         usesX, usesY, stales = [], [], []
         for t, v, s, k in iter_stores(mesh.node):
             a = self_attr_of(t)
-            if a in ("u", "yval") and v is not None and idx in {x.id for x in ast.walk(v) if isinstance(x, ast.Name)}:
+            if a in ("u", "yval") and v is not None and isinstance(t, ast.Attribute):
                 dv, stl = deref(strip_copy(v), s)
+                dv = strip_copy(dv)
+                while isinstance(dv, ast.Call) and isinstance(dv.func, ast.Attribute) and dv.func.attr in ("item", "copy") and not dv.args:
+                    dv = strip_copy(dv.func.value)  # the scalar / a copy taken before the value is parked in a local
+                if idx not in {x.id for x in ast.walk(dv) if isinstance(x, ast.Name)}:
+                    continue
                 if stl:
                     stales.append(stl)
-                cv = canon(strip_copy(dv))
+                cv = canon(dv)
                 if a == "u" and cv == f"LOG.X[{idx}]":
                     usesX.append(s)
                 if a == "yval" and cv == f"LOG.Y[{idx}]":
